@@ -6,6 +6,8 @@ import (
 	"strconv"
 	"strings"
 
+	"github.com/paulsonkoly/calc/types/bytecode"
+
 	"verif/ast"
 	"verif/calcrun"
 	"verif/core"
@@ -123,6 +125,63 @@ func parseReport(rep string) (parsedReport, string) {
 		p.Contexts = append(p.Contexts, frames)
 	}
 	return p, ""
+}
+
+var listRe = regexp.MustCompile(`^(-->|   ) (\d+): (0X[0-9A-F]+) : (.*)$`)
+
+// disasm renders an instruction word the way the report does, from the
+// field accessors (independent of the instruction's own String method).
+func disasm(w bytecode.Type) string {
+	src := func(kind uint64, addr int) string {
+		switch kind {
+		case bytecode.AddrDS:
+			return fmt.Sprintf("DS[%d] ", addr)
+		case bytecode.AddrCls:
+			return fmt.Sprintf("CLS[%d] ", addr)
+		case bytecode.AddrLcl:
+			return fmt.Sprintf("LCL[%d] ", addr)
+		case bytecode.AddrGbl:
+			return fmt.Sprintf("GBL[%d] ", addr)
+		case bytecode.AddrStck:
+			return "STCK "
+		case bytecode.AddrTmp:
+			return "TMP "
+		case bytecode.AddrImm:
+			return fmt.Sprintf("%d ", addr)
+		}
+		return ""
+	}
+	return fmt.Sprintf("%v %s%s%s", w.OpCode(), src(w.Src2(), w.Src2Addr()), src(w.Src1(), w.Src1Addr()), src(w.Src0(), w.Src0Addr()))
+}
+
+// checkListing: every listed line shows the instruction that really is at that
+// address, disassembled correctly.
+func checkListing(rep string, cs []bytecode.Type) string {
+	for _, l := range strings.Split(rep, "\n") {
+		if strings.HasPrefix(l, "memory context ") {
+			break
+		}
+		m := listRe.FindStringSubmatch(l)
+		if m == nil {
+			continue
+		}
+		ip, _ := strconv.Atoi(m[2])
+		word, err := strconv.ParseUint(m[3][2:], 16, 64)
+		if err != nil || ip < 0 || ip >= len(cs) {
+			return "unparsable listing line: " + l
+		}
+		if bytecode.Type(word) != cs[ip] {
+			return fmt.Sprintf("listing line %q: the instruction at %d is %#016X", l, ip, uint64(cs[ip]))
+		}
+		text := m[4]
+		if i := strings.Index(text, ";"); i >= 0 && m[1] == "-->" {
+			text = text[:i]
+		}
+		if want := disasm(cs[ip]); text != want {
+			return fmt.Sprintf("listing line %q: the word %s disassembles to %q", l, m[3], want)
+		}
+	}
+	return ""
 }
 
 func abbrevV(v val.Value) string {
@@ -316,6 +375,9 @@ func c19Case(ctx *core.Ctx, idx int) core.Result {
 	} else {
 		stmts, where = c19Session(r)
 	}
+	// later failures in the same session: their reports must not show anything of the earlier ones
+	stmts = append(stmts, ast.Assign{Name: "ztail", Value: ast.FuncLit{Params: []string{"q"}, Body: ast.Binary{Op: "/", L: nm("q"), R: il(0)}}},
+		icall("ztail", il(int64(r.Intn(9)))), ast.Binary{Op: "%", L: il(5), R: il(0)})
 	doOut := idx%2 == 0
 	res.Hash = core.Mix(sessionHash(stmts) ^ uint64(idx%2))
 	in := map[string]any{"session": sessionText(stmts), "failure_position": where, "repl_mode": doOut}
@@ -356,7 +418,11 @@ func c19Case(ctx *core.Ctx, idx int) core.Result {
 			}
 			continue
 		}
-		if bad := checkReport(ob, w); bad != "" {
+		bad := checkReport(ob, w)
+		if bad == "" {
+			bad = checkListing(ob.Report, *ses.CR.CS)
+		}
+		if bad != "" {
 			in["report"] = trunc(ob.Report, 2500)
 			res.Verdict = core.Violated
 			res.Viol = &core.Violation{Monitor: "error-report", Detail: fmt.Sprintf("statement %d %q: %s", i, trunc(ast.Print(st, nil), 150), bad), Input: in}
